@@ -12,7 +12,9 @@ import (
 	"fmt"
 	"io"
 	"io/fs"
+	"regexp"
 	"sort"
+	"strings"
 	"sync"
 )
 
@@ -133,7 +135,7 @@ func (s *State) Hash() string {
 		put(s.Files[n])
 	}
 	put([]byte("\x00meta"))
-	put(s.Meta)
+	put(canonMeta(s.Meta))
 	ks := make([]string, 0, len(s.Stable))
 	for k := range s.Stable {
 		ks = append(ks, k)
@@ -662,4 +664,45 @@ func Resolve(path string) (*Disk, string, bool) {
 		return nil, "", false
 	}
 	return d, name, true
+}
+
+var reTime = regexp.MustCompile(`"(CreateTime|SealTime)":"([^"]*)"`)
+
+// canonMeta reduces the timestamps of a metadata record to zero / non-zero:
+// only SealTime.IsZero() influences behaviour, and wall-clock values would make
+// otherwise identical images distinct states.
+var (
+	canonMu    sync.Mutex
+	canonCache = map[string][]byte{}
+)
+
+func canonMeta(b []byte) []byte {
+	if b == nil {
+		return nil
+	}
+	canonMu.Lock()
+	c, ok := canonCache[string(b)]
+	canonMu.Unlock()
+	if ok {
+		return c
+	}
+	c = canonMetaSlow(b)
+	canonMu.Lock()
+	if len(canonCache) > 20000 {
+		canonCache = map[string][]byte{}
+	}
+	canonCache[string(b)] = c
+	canonMu.Unlock()
+	return c
+}
+
+func canonMetaSlow(b []byte) []byte {
+	return reTime.ReplaceAllFunc(b, func(m []byte) []byte {
+		sm := reTime.FindSubmatch(m)
+		v := "T"
+		if strings.HasPrefix(string(sm[2]), "0001-01-01T00:00:00") {
+			v = "0"
+		}
+		return []byte(`"` + string(sm[1]) + `":"` + v + `"`)
+	})
 }
